@@ -86,7 +86,11 @@ def h_faithful(variant):
         ip_proto = choose_if('misc', 'ip_proto', ['tcp', 'udp', 'icmp', 'any', None])
         cdh = choose_if('algs', 'child_dh', [None, [], ['ecp256'], ['14', '19']])
         c_encr, c_integ, encr, integ = encr, integ, None, None
-    conn = {'my_addr': '192.0.2.1', 'peer_addr': '192.0.2.2', 'my_auth': {'psk': 'k1'}, 'peer_auth': {'id': 'bob@example.org', 'psk': 'k2'},
+    # pre-shared keys are octet strings: surrounding blanks, tabs, line ends (a YAML block scalar ends in one), inner blanks, non-ASCII text, text that
+    # looks like a number, a PEM header or a hexadecimal literal are all part of the secret
+    psk1 = choose_if('id', 'psk_mine', PSKS)
+    psk2 = PSKS[(PSKS.index(psk1) + 5) % len(PSKS)]
+    conn = {'my_addr': '192.0.2.1', 'peer_addr': '192.0.2.2', 'my_auth': {'psk': psk1}, 'peer_auth': {'id': 'bob@example.org', 'psk': psk2},
             'lifetime': ike_lifetime, 'dpd': dpd}
     if id_a is not None:
         conn['my_auth']['id'] = id_a
@@ -117,8 +121,8 @@ def h_faithful(variant):
     wt, wd = ref_id(id_a if id_a is not None else 'https://github.com/alejandro-perez/pyikev2')
     if int(ic.my_auth.id.id_type) != wt or bytes(ic.my_auth.id.id_data) != wd:
         return {'class': ['faithful'], 'violation': f'identity {id_a!r} typed as {int(ic.my_auth.id.id_type)}/{bytes(ic.my_auth.id.id_data)!r}, expected {wt}/{wd!r}'}
-    if ic.my_auth.psk != b'k1' or ic.peer_auth.psk != b'k2' or ic.my_auth.privkey is not None or ic.peer_auth.pubkey is not None:
-        return {'class': ['faithful'], 'violation': 'credentials differ from the given ones'}
+    if ic.my_auth.psk != psk1.encode() or ic.peer_auth.psk != psk2.encode() or ic.my_auth.privkey is not None or ic.peer_auth.pubkey is not None:
+        return {'class': ['faithful'], 'violation': f'credentials differ from the given ones: pre-shared keys {psk1!r} / {psk2!r} loaded as {ic.my_auth.psk!r} / {ic.peer_auth.psk!r}'}
     if ic.name != 'conn1' or ic.my_addr != key[0] or ic.peer_addr != key[1] or len(ic.protect) != 1:
         return {'class': ['faithful'], 'violation': 'name / addresses / number of protect entries differ'}
     pe = ic.protect[0]
@@ -139,6 +143,7 @@ def h_faithful(variant):
     return ['faithful', variant]
 
 
+PSKS = ['k1', 'k2', ' leading', 'trailing ', 'line end\n', '\ttab\t', 'in ner', 'gr\u00fc\u00dfe', '12345', '0x6b6579', '-----BEGIN PUBLIC KEY-----', ' ']
 DIMS = {'ike_algs': ('algs',), 'ike_id': ('id',), 'ipsec_algs': ('algs',), 'ipsec_misc': ('misc',)}
 KINDS = ('missing', 'none', 'true', 'int', 'numstr', 'str', 'empty', 'list', 'dict', 'float', 'inf', 'nan', 'negative', 'huge', 'bytes', 'list_of_int', 'list_of_unknown',
          'pem_rsa_priv', 'pem_rsa_pub', 'pem_ec_priv', 'pem_ec_pub', 'pem_ed25519_priv', 'pem_ed25519_pub', 'pem_truncated')
